@@ -13,14 +13,15 @@ import (
 )
 
 type specCtx struct {
-	local func(name string, st *State) (Val, bool) // resolves source-level local variables (loop invariants)
-	iter  *iterInfo                                // map iterator of the loop whose invariant is being evaluated (for seen(k))
-	fr    *Frame
-	cur   *State
-	old   *State
-	env   map[string]Val
-	pkg   *types.Package
-	depth int
+	local  func(name string, st *State) (Val, bool) // resolves source-level local variables (loop invariants)
+	iter   *iterInfo                                // map iterator of the loop whose invariant is being evaluated (for seen(k))
+	header *State                                   // state at the loop header of the current iteration (iteration clauses)
+	fr     *Frame
+	cur    *State
+	old    *State
+	env    map[string]Val
+	pkg    *types.Package
+	depth  int
 }
 
 func (c *specCtx) with(env map[string]Val) *specCtx {
@@ -49,7 +50,9 @@ func (fr *Frame) baseEnv() map[string]Val {
 		if v, ok := fr.vals[fv]; ok {
 			env["&"+fv.Name()] = v
 			// captured variables are cells: the name denotes the value held on entry (closures under contract do not reassign them)
-			if pt, ok := fv.Type().Underlying().(*types.Pointer); ok && fr.u.entry != nil {
+			if pv, ok := fr.pinned[fv]; ok {
+				env[fv.Name()] = pv
+			} else if pt, ok := fv.Type().Underlying().(*types.Pointer); ok && fr.u.entry != nil {
 				a := fr.addrOfRef(v.T, pt.Elem())
 				env[fv.Name()] = fr.load(fr.u.entry, a)
 			}
@@ -237,6 +240,10 @@ func (u *Unit) specIdent(e *SExpr, ctx *specCtx) (Val, error) {
 			return Val{T: u.hget(ctx.cur, "$alloc", sInt), Ty: tIntT}, nil
 		case "$lastjson":
 			return Val{T: u.hget(ctx.cur, "$lastjson", sStr), Ty: tStrT}, nil
+		case "$chansent":
+			return Val{T: u.hget(ctx.cur, "$chansent", "(Array Int Int)"), S: "(Array Int Int)"}, nil
+		case "$chanlast":
+			return Val{T: u.hget(ctx.cur, "$chanlast", "(Array Int Any)"), S: "(Array Int Any)"}, nil
 		}
 		if srt, ok := u.eng.contracts.Ghosts[e.Name]; ok {
 			if strings.HasPrefix(srt, "const ") { // ghost constant of a Go type, e.g. "const *sugardb.SugarDB"
@@ -623,6 +630,30 @@ func (u *Unit) specCall(e *SExpr, ctx *specCtx) (Val, error) {
 			return Val{T: sx(">", l, "0"), Ty: tBoolT}, nil
 		}
 		return Val{T: eq(l, "0"), Ty: tBoolT}, nil
+	case "deref":
+		// deref(p): the value a pointer to a non-struct variable points to
+		p, err := arg(0)
+		if err != nil {
+			return Val{}, err
+		}
+		pt, ok := p.Ty.Underlying().(*types.Pointer)
+		if !ok {
+			return Val{}, fmt.Errorf("deref of non-pointer %s", e.Args[0])
+		}
+		srt := u.sortOf(pt.Elem())
+		h := u.hget(ctx.cur, u.cellHeapName(pt.Elem()), "(Array Int "+srt+")")
+		return Val{T: sel(h, p.T), Ty: pt.Elem()}, nil
+	case "onlyrheld":
+		// exactly the listed RWMutexes are read-held (once) by this goroutine, every other mutex is free
+		t := "((as const (Array Int Int)) 0)"
+		for _, a := range e.Args {
+			x, err := u.specAddr(a, ctx)
+			if err != nil {
+				return Val{}, err
+			}
+			t = store(t, lockKey(x, 1), "1")
+		}
+		return Val{T: eq(u.hget(ctx.cur, "$lock", lockSort), t), Ty: tBoolT}, nil
 	case "onlyheld":
 		// exactly the listed mutexes are write-held by this goroutine, every other mutex is free
 		t := "((as const (Array Int Int)) 0)"
@@ -879,6 +910,38 @@ func (u *Unit) specCall(e *SExpr, ctx *specCtx) (Val, error) {
 			c = u.hget(ctx.cur, ctx.iter.cnt, sInt)
 		}
 		return Val{T: c, Ty: tIntT}, nil
+	case "unixmilli":
+		x, err := arg(0)
+		if err != nil {
+			return Val{}, err
+		}
+		u.reg.declConst("unix_epoch_ns", sInt)
+		return Val{T: goDiv(sx("-", x.T, "unix_epoch_ns"), "1000000"), Ty: types.Typ[types.Int64]}, nil
+	case "atomic":
+		// atomic(x.f): the current value of the sync/atomic variable stored in field f
+		a, err := u.specAddr(e.Args[0], ctx)
+		if err != nil {
+			return Val{}, err
+		}
+		return Val{T: sel(u.hget(ctx.cur, "$atomic", "(Array Int Int)"), a), Ty: tIntT}, nil
+	case "calls":
+		// calls(Name): how many calls to the function / method / function-valued field Name this activation has made so far
+		if len(e.Args) != 1 || e.Args[0].Op != "ident" {
+			return Val{}, fmt.Errorf("calls(Name)")
+		}
+		cn := "%calls_" + sanitize(e.Args[0].Name)
+		if t, ok := ctx.cur.heap[cn]; ok {
+			return Val{T: t, Ty: tIntT}, nil
+		}
+		return Val{T: "0", Ty: tIntT}, nil
+	case "atheader":
+		if ctx.header == nil {
+			return Val{}, fmt.Errorf("atheader() is only available in iteration clauses")
+		}
+		n := *ctx
+		n.cur = ctx.header
+		n.header = nil
+		return u.specVal(e.Args[0], &n)
 	case "seenin":
 		// seenin(n, k): k was already visited by the range-over-map loop with ordinal n (an enclosing loop)
 		if len(e.Args) != 2 || e.Args[0].Op != "int" || ctx.fr == nil {
